@@ -65,7 +65,8 @@ def main(argv=None):
                 rp = json.load(f)
             out = mod.replay(ctx, rp)
         elif args.selftest:
-            out = mod.selftest(ctx)
+            from harness import selftest
+            out = selftest.run(ctx)
         else:
             out = mod.run(ctx)
     except tlc.MachineryError as e:
